@@ -120,7 +120,7 @@ def parse_error_id(err: str) -> ErrorCode:
 def parse_python_version(version: str) -> tuple[int, int]:
     nums = version.split(".")
 
-    if len(nums) == 2 and all(num.isnumeric() for num in nums):
+    if len(nums) == 2 and all(num.isdecimal() for num in nums):
         return tuple(int(num) for num in nums)[:2]  # type: ignore
 
     raise ValueError("refurb: version must be in form `x.y`")
